@@ -86,6 +86,8 @@ func (r *Recorder) hook(ev string, kv ...interface{}) {
 		m["offs"] = recOffs(kv[2].(common.OffsetsBySource))
 	case "flush.begin":
 		m["n"] = kv[1]
+		m["noraw"] = kv[2]
+		m["sorted"] = kv[3]
 		m["file"] = kv[4].(string)
 		m["offs"] = recOffs(kv[5].(common.OffsetsBySource))
 	case "flush.temp":
